@@ -97,7 +97,7 @@ theorem run_bf_miss (s : KSt) (t : Option Path) (path : Path) (cmp : Cmp) (fname
   simp only [Impl.run, hsetup, hlook, bfRecord]
   rfl
 
-def retOf : Op → Json
+def opRet : Op → Json
   | .buildFile _ _ _ _ _ _ r _ _ _ _ => r
   | .subbuild _ _ _ _ r _ _ => r
   | _ => .null
@@ -107,7 +107,7 @@ theorem run_bf_hit (s : KSt) (t : Option Path) (path : Path) (cmp : Cmp) (fname 
     (hsetup : bfSetup s.sp path = .ok (sp1, made))
     (hlook : lookupFile (afterSetup s sp1 path made) path cmp fname args kwargs made = some (op, s2)) :
     Impl.run (.buildFile path cmp fname args kwargs body k) t s =
-      (let rest := Impl.run (k (.ok (match op with | .buildFile _ _ _ _ _ _ _ _ _ _ _ => retOf op | _ => .null))) t s2
+      (let rest := Impl.run (k (.ok (match op with | .buildFile _ _ _ _ _ _ _ _ _ _ _ => opRet op | _ => .null))) t s2
        (rest.1, rest.2.1, op :: rest.2.2)) := by
   simp only [Impl.run, hsetup, hlook]
   cases op <;> rfl
@@ -140,7 +140,7 @@ theorem run_sb_hit (s : KSt) (t : Option Path) (fname : String) (args kwargs : J
     (h2 : s.sp.failSubs.any (heq (subKey fname args kwargs)) = false)
     (hlook : lookupSub (subClaim s (subKey fname args kwargs)) fname args kwargs = some (op, s2)) :
     Impl.run (.subbuild fname args kwargs body k) t s =
-      (let rest := Impl.run (k (.ok (match op with | .subbuild _ _ _ _ _ _ _ => retOf op | _ => .null))) t s2
+      (let rest := Impl.run (k (.ok (match op with | .subbuild _ _ _ _ _ _ _ => opRet op | _ => .null))) t s2
        (rest.1, rest.2.1, op :: rest.2.2)) := by
   simp only [Impl.run, h1, h2, hlook, Bool.false_eq_true, if_false]
   cases op <;> rfl
@@ -489,7 +489,7 @@ theorem flat_second_run {prog : Prog} (hflat : Flat prog) : ∀ (s s' : KSt),
         out.2.2 j (View.cmpResult cmp c m) c c m hold' (hv fname) hargs hkw hne hshelf' (cmpResult_refl cmp c m) hrep'
       have hrun' := run_bf_hit s' none path cmp fname args kwargs body k _ made _ _ hsetup' hlook'
       rw [hrun']
-      simp only [retOf]
+      simp only [opRet]
       -- the states after the call correspond
       have e3 : (withSp out.2.1 (bfFinish out.2.1.sp path made out.1).2).sp =
           finOk (setPC (missStart (afterSetup s sp1 path made) path ⟨fname, some path, args, kwargs⟩) pend clk).sp path made c m := by
@@ -563,7 +563,7 @@ theorem flat_second_run {prog : Prog} (hflat : Flat prog) : ∀ (s s' : KSt),
       have hlook' := C05_leaf_sub_reused_partial s fname args kwargs body hleaf j hj s' args kwargs hsame.visible hsame.dirSize
         (hv fname) hold'
       rw [run_sb_hit s' none fname args kwargs body k _ _ hcl' hfs' hlook']
-      simp only [retOf]
+      simp only [opRet]
       have hsame2 : Same (Impl.run body none (Impl.subStart (subClaim s (subKey fname args kwargs)) ⟨fname, none, args, kwargs⟩)).2.1
           (subClaim s' (subKey fname args kwargs)) := by
         rw [hst]
